@@ -710,8 +710,14 @@ ASSUME = ["1 <= count < 2^32 (varintAdaptiveEncodeWith casts the count to uint32
           "conversions and one correctly rounded division; checked against exact rational arithmetic by adaptive_ratio"]
 
 PARTS = {
-    "C06": dict(coq_props=["Properties_C06_adaptive"], files=FILES, rule=RULE, generate=generate_C06,
+    "C06": dict(coq_props=["Properties_C06_adaptive", "Properties_C06_adaptive_float"], files=FILES, rule=RULE,
+                generate=generate_C06,
                 oracles=_oracles(o_C06, ENC_APIS), classify=classify, search=search, assumptions=ASSUME,
+                trusted_base=["C06_adaptive_float_* only: Flocq 4.1 (binary_normalize, Bdiv, Bcompare, b32_of_bits, "
+                              "B2R, round) as the definition of IEEE-754 binary32, and the stdlib real-number axioms "
+                              "(ClassicalDedekindReals.sig_forall_dec, sig_not_dec, functional_extensionality_dep, "
+                              "Classical_Prop.classic); the other C06_adaptive_* statements are closed under the "
+                              "global context"],
                 configs_quick=["pinned", "O0"]),
     "C03": dict(coq_props=["Properties_C03_adaptive"], files=FILES, rule=RULE, generate=generate_C03,
                 oracles=_oracles(o_C03, ENC_APIS), classify=classify, search=search, assumptions=ASSUME,
